@@ -74,7 +74,7 @@ theorem lenient_never_denies (s : State) (hlen : s.cfg.strict = false) (c : Cert
 theorem failed_load_stays_unloaded (s : State) (loc : Loc) (e : Entry) (cands : List Signer)
     (hfail : (loadCRL s loc e cands).2 = .err) : (loadCRL s loc e cands).1 = s := by
   unfold loadCRL at hfail ⊢
-  by_cases hc : (e.closed && s.cfg.disk) = true
+  by_cases hc : loadRefused s e = true
   · simp only [hc, ↓reduceIte]
   · simp only [hc, Bool.false_eq_true, ↓reduceIte] at hfail ⊢
     cases hst : stage s.cfg.sigMode firstLoadHonoursMode (servedAt s loc) cands with
